@@ -206,7 +206,23 @@ func (p *parser) parseStatement(depth int) node {
 		return p.parseBlock(depth + 1)
 	case c == ')':
 		if depth == 0 {
-			in.unmodelled("rule 6: a line starting with ')' is executed outside any block")
+			// rule 6: outside any block (execution fell into the remainder of a block that a GOTO abandoned)
+			// a ')' that begins a command and is followed by a delimiter, '(' or the line end acts like REM:
+			// the rest of the line - e.g. ") else if !x! equ 1 (" - is ignored and opens no block.
+			// Lines with redirection, pipes, '&' or '^' after it are not guessed.
+			nx := p.peekAt(1)
+			if !(nx < 0 || nx == '\n' || isDelim(nx) || nx == '(') {
+				in.unmodelled("rule 6: ')' glued to other text is executed outside any block")
+			}
+			start := p.i
+			for p.peek() >= 0 && p.peek() != '\n' {
+				p.i++
+			}
+			if strings.ContainsAny(string(p.buf[start:p.i]), "^&|<>") {
+				in.unmodelled("rule 6: a line starting with ')' and containing ^ & | < > is executed outside any block")
+			}
+			in.strayParens++
+			return seqNode{}
 		}
 		in.unmodelled("rule 1: empty command before ')'")
 	case c == ':':
